@@ -21,8 +21,26 @@
   (`C10_partial`).  Regeneration is idempotent unless a formatted file is sensitive to isort's view
   of the working directory (finding C10-F3, `regenerate_idempotent`).  The regression witness of the
   repaired finding C10-F1 is `topo_order_depended_on_enum_before_fix`.
+
+  Sections 8 and 9 (Model/OrderResult.lean) bring the set-fed emission points INSIDE a result module and
+  the order of plugin hooks into the model: class bases (`sorted(fragments)`), the `Literal[...]` of
+  `__typename` (`list(set - set)` then `sorted`), the fragment definitions appended to an operation string
+  (`sorted(_get_all_related_fragments())`) are oracle independent at full strength
+  (`result_module_oracle_independent`); plugin classes are loaded in the order of the configured LIST and
+  their hooks applied in that order (`plugins_in_config_order`, `hooks_in_config_order`), a module's plugin
+  classes do not depend on how its namespace is listed (`plugins_listing_independent`); and because hooks
+  do not commute (`hook_order_observable`), the order must not pass through a set.
+
+  Sections 10 and 11 compose everything into the two entry points: `graphqlschema_deterministic`
+  (`main.graphql_schema`, no trigger besides isort's view of the target for the python format) and
+  `client_deterministic` (`main.client`: hash seed, creation order of schema AND operation files, plugin
+  module namespaces, existing target, all at once, outside the triggers of C10-F2 / C10-F3).  The front end
+  (parse, validate, what each generator collects) and the assembly of files are abstract deterministic
+  functions there; the byte level is the oracle's.
 -/
 import AriadneModel.Proofs.OrderPlugins
+import AriadneModel.Proofs.OrderResult
+import AriadneModel.Proofs.OrderClient
 
 set_option linter.unusedVariables false
 
@@ -364,5 +382,244 @@ example : PathsDistinct [⟨["b.graphql"], false, "B"⟩, ⟨["a", "c.gql"], fal
   rcases ha with rfl | rfl <;> rcases hb with rfl | rfl <;> simp_all
 
 example : summaryTie (extendImports id [⟨1, "get_a", ["GetA"]⟩] [("get_a", ["GetAA", "Extra"])]) = false := by decide
+
+/-! ## 8. inside a result module: class bases, `__typename` literals, fragments of the operation string -/
+
+/-- (must) `class X(<fragments as bases>)`: `[pascal f for f in sorted(fragments)] + extra_bases` does not
+    depend on how the set `fragments` is iterated nor on how it was built up (any two listings of it). -/
+theorem class_bases_oracle_independent (e₁ e₂ : EnumOracle) (he₁ : EnumOK e₁) (he₂ : EnumOK e₂) (pascal : Name → Name)
+    (baseModel : Name) {f₁ f₂ : List Name} (p : f₁.Perm f₂) (extra : List Name) :
+    classBases e₁ pascal baseModel f₁ extra = classBases e₂ pascal baseModel f₂ extra :=
+  classBases_eq_of_perm e₁ e₂ he₁ he₂ pascal baseModel p extra
+
+/-- (should) no fragment is lost or duplicated among the bases, `@mixin` bases stay last -/
+theorem class_bases_complete (e : EnumOracle) (he : EnumOK e) (pascal : Name → Name) (baseModel : Name)
+    (f extra : List Name) (hne : f ≠ []) :
+    (classBases e pascal baseModel f extra).Perm (f.map pascal ++ extra) :=
+  classBases_perm e he pascal baseModel f extra hne
+
+example : classBases List.reverse String.capitalize "BaseModel" ["userCore", "auditView", "adminView"] ["Mx"]
+    = ["AdminView", "AuditView", "UserCore", "Mx"] ∧ classBases id String.capitalize "BaseModel" [] [] = ["BaseModel"] := by decide
+
+/-- (must) the elements of every `typename__: Literal[...]`: the types without a class come out of a set
+    difference, `generate_typename_annotation` sorts them. -/
+theorem typename_literals_oracle_independent (e₁ e₂ : EnumOracle) (he₁ : EnumOK e₁) (he₂ : EnumOK e₂)
+    (typesNames : List Name) (abstract : Option Name) (possible : List Name) :
+    typenameLiterals e₁ typesNames abstract possible = typenameLiterals e₂ typesNames abstract possible :=
+  typenameLiterals_eq e₁ e₂ he₁ he₂ typesNames abstract possible
+
+/-- (should) which types those are: the possible types that have no class of their own, each once -/
+theorem types_without_class_spec (e : EnumOracle) (he : EnumOK e) (possible typesNames : List Name) :
+    (∀ a, a ∈ typesWithoutClass e possible typesNames ↔ a ∈ possible ∧ a ∉ typesNames)
+      ∧ (typesWithoutClass e possible typesNames).Nodup :=
+  ⟨mem_typesWithoutClass e he possible typesNames, nodup_typesWithoutClass e he possible typesNames⟩
+
+example : typenameLiterals List.reverse ["Animal", "Dog"] (some "Animal") ["Dog", "Cat", "Bird"]
+    = [("Animal", ["Animal", "Bird", "Cat"]), ("Dog", ["Dog"])] := by decide
+
+/-- every mixin fragment has a definition (`_resolve_selection_set` looked it up before adding it to the set) -/
+def MixinsDefined (mixins : List Name) (closure : Name → Option (List Name)) : Prop := ∀ f, f ∈ mixins → (closure f).isSome
+
+/-- (must) the fragment definitions appended to the operation string (`client.py`, and the files of
+    ExtractOperationsPlugin): a union of sets built by iterating a set, then `sorted`. -/
+theorem operation_fragments_oracle_independent (e₁ e₂ : EnumOracle) (he₁ : EnumOK e₁) (he₂ : EnumOK e₂)
+    (mixins unpacked : List Name) (closure : Name → Option (List Name)) (hdef : MixinsDefined mixins closure) :
+    operationFragments e₁ mixins unpacked closure = operationFragments e₂ mixins unpacked closure :=
+  operationFragments_eq e₁ e₂ he₁ he₂ mixins unpacked closure hdef
+
+/-- (should) and under the same guard the KeyError branch of the model is unreachable -/
+theorem operation_fragments_no_key_error (e : EnumOracle) (he : EnumOK e) (mixins unpacked : List Name)
+    (closure : Name → Option (List Name)) (hdef : MixinsDefined mixins closure) :
+    ∃ out, operationFragments e mixins unpacked closure = .ok out :=
+  operationFragments_ok e he mixins unpacked closure hdef
+
+def demoClosure : Name → Option (List Name) := fun f => if f = "FullView" then some ["UserCore", "ContactView", "AuditView"] else some []
+
+example : MixinsDefined ["FullView"] demoClosure := by intro f _; unfold demoClosure; split <;> rfl
+
+example : operationFragments List.reverse ["FullView"] ["Zz"] demoClosure = .ok ["AuditView", "ContactView", "FullView", "UserCore", "Zz"] := by decide
+
+/-- (must) `TypeCollector.collect` (custom operations): `sorted(self.collected_types)` -/
+theorem collected_types_oracle_independent (e₁ e₂ : EnumOracle) (he₁ : EnumOK e₁) (he₂ : EnumOK e₂) (collected : List Name) :
+    collectedTypes e₁ collected = collectedTypes e₂ collected :=
+  pySorted_eq_of_perm ((he₁ collected).trans (he₂ collected).symm)
+
+/-- (must) one whole result module (bases of every class, every `__typename` literal, the fragments of the
+    operation string) is independent of set iteration — at full strength, there is no finding trigger here. -/
+theorem result_module_oracle_independent (e₁ e₂ : EnumOracle) (he₁ : EnumOK e₁) (he₂ : EnumOK e₂) (pascal : Name → Name)
+    (baseModel : Name) (closure : Name → Option (List Name)) (r : ResultIn) (hdef : MixinsDefined r.mixins closure) :
+    emitResult e₁ pascal baseModel closure r = emitResult e₂ pascal baseModel closure r := by
+  unfold emitResult
+  rw [operationFragments_eq e₁ e₂ he₁ he₂ r.mixins r.unpacked closure hdef]
+  have hb : r.classes.map (fun c => (c.name, classBases e₁ pascal baseModel c.fragments c.extraBases))
+      = r.classes.map (fun c => (c.name, classBases e₂ pascal baseModel c.fragments c.extraBases)) := by
+    apply List.map_congr_left
+    intro c _
+    rw [classBases_eq_of_perm e₁ e₂ he₁ he₂ pascal baseModel (List.Perm.refl c.fragments) c.extraBases]
+  have hl : r.typenames.map (fun t => typenameLiterals e₁ t.typesNames t.abstract t.possible)
+      = r.typenames.map (fun t => typenameLiterals e₂ t.typesNames t.abstract t.possible) := by
+    apply List.map_congr_left
+    intro t _
+    exact typenameLiterals_eq e₁ e₂ he₁ he₂ t.typesNames t.abstract t.possible
+  rw [hb, hl]
+
+def demoResult : ResultIn :=
+  { module := "get_user",
+    classes := [⟨"GetUserUser", ["UserCore", "AuditView", "AdminView"], []⟩, ⟨"GetUserUserManager", [], ["Mx"]⟩],
+    typenames := [⟨["Animal", "Dog"], some "Animal", ["Dog", "Cat", "Bird"]⟩],
+    mixins := ["FullView"], unpacked := [] }
+
+example : MixinsDefined demoResult.mixins demoClosure := by intro f _; unfold demoClosure; split <;> rfl
+
+example : (emitResult List.reverse String.capitalize "BaseModel" demoClosure demoResult).map (·.bases)
+    = .ok [("GetUserUser", ["AdminView", "AuditView", "UserCore"]), ("GetUserUserManager", ["BaseModel", "Mx"])] := by decide
+
+/-! ## 9. the order of plugin classes and plugin hooks comes from the configured LIST -/
+
+/-- (must) the plugin classes taken from a module do not depend on the order in which the module's
+    namespace is listed (`inspect.getmembers` sorts by attribute name; attribute names are distinct). -/
+theorem plugins_listing_independent {ns₁ ns₂ : List (Name × Cls) → List (Name × Cls)} (resolve : String → PluginTarget)
+    (h₁ : ∀ ms, (ns₁ ms).Perm ms) (h₂ : ∀ ms, (ns₂ ms).Perm ms)
+    (hd : ∀ s ms, resolve s = .module ms → AttrsDistinct ms) (strs : List String) :
+    getPluginsTypes ns₁ resolve strs = getPluginsTypes ns₂ resolve strs :=
+  getPluginsTypes_eq_of_perm resolve h₁ h₂ hd strs
+
+/-- (must) plugin classes come in the order of the configured list: loading `a ++ b` is loading `a`, then `b`
+    (and the first refusal in that order is the one that escapes). -/
+theorem plugins_in_config_order (ns : List (Name × Cls) → List (Name × Cls)) (resolve : String → PluginTarget) (a b : List String) :
+    getPluginsTypes ns resolve (a ++ b)
+      = match getPluginsTypes ns resolve a with
+        | .error m => .error m
+        | .ok x => (getPluginsTypes ns resolve b).map (x ++ ·) :=
+  getPluginsTypes_append ns resolve a b
+
+/-- (must) … and every hook is applied in that order: the plugins listed later see what the earlier ones produced. -/
+theorem hooks_in_config_order {α : Type} (hookOf : Cls → α → α) (p q : List Cls) (x : α) :
+    applyHooks hookOf (p ++ q) x = applyHooks hookOf q (applyHooks hookOf p x) :=
+  applyHooks_append hookOf p q x
+
+/-- (must) Why that order is part of the output: hooks do not commute, so a plugin list that went through a
+    set would make the generated files depend on the enumeration (hash seed). -/
+theorem hook_order_observable :
+    ∃ (hookOf : Cls → List Cls → List Cls) (ps : List Cls) (e₁ e₂ : EnumOracle), EnumOK e₁ ∧ EnumOK e₂ ∧
+      applyHooks hookOf (e₁ ps) [] ≠ applyHooks hookOf (e₂ ps) [] :=
+  ⟨fun c x => x ++ [c], ["ShorterResultsPlugin", "ClientForwardRefsPlugin"], id, List.reverse,
+    fun _ => List.Perm.refl _, fun s => List.reverse_perm s, by decide⟩
+
+def demoResolve : String → PluginTarget := fun s =>
+  if s = "contrib.shorter_results" then .module [("ShorterResultsPlugin", "contrib.shorter_results.ShorterResultsPlugin"), ("Alias", "x.Other")]
+  else if s = "nowhere" then .refused "Incorrect plugin path. Use an absolute import path."
+  else .cls s
+
+example : getPluginsTypes List.reverse demoResolve ["b.P", "contrib.shorter_results", "a.Q"]
+    = .ok ["b.P", "x.Other", "contrib.shorter_results.ShorterResultsPlugin", "a.Q"] := by decide
+
+example : getPluginsTypes id demoResolve ["b.P", "nowhere", "a.Q"] = .error "Incorrect plugin path. Use an absolute import path." := by decide
+
+example : ∀ s ms, demoResolve s = .module ms → AttrsDistinct ms := by
+  intro s ms h
+  unfold demoResolve at h
+  split at h
+  · cases h
+    intro a b ha hb hab
+    simp at ha hb
+    rcases ha with rfl | rfl <;> rcases hb with rfl | rfl <;> simp_all
+  · split at h <;> cases h
+
+example : runHook id demoResolve (fun c (x : List Cls) => x ++ [c]) ["b.P", "a.Q"] [] = .ok ["b.P", "a.Q"] := by decide
+
+/-! ## 10. the graphqlschema strategy as a whole -/
+
+/-- (must) "The same holds for the graphqlschema strategy": a run of `main.graphql_schema` — load the schema
+    files, build, resolve the plugins, `process_schema`, validate, render, write the one target file — gives
+    the same write log (hence the same bytes) whatever the order in which the schema directory and the
+    plugin modules' namespaces are listed, whatever the target directory already holds and whatever isort saw of it,
+    provided the rendering is insensitive to that view (always so for the `.graphql` target; C10-F3 otherwise). -/
+theorem graphqlschema_deterministic {S : Type} (dirList₁ dirList₂ : List Entry → List Entry) (entries : List Entry)
+    (h₁ : (dirList₁ entries).Perm entries) (h₂ : (dirList₂ entries).Perm entries) (hd : PathsDistinct entries)
+    (build : String → S) {ns₁ ns₂ : List (Name × Cls) → List (Name × Cls)} (resolve : String → PluginTarget)
+    (hn₁ : ∀ ms, (ns₁ ms).Perm ms) (hn₂ : ∀ ms, (ns₂ ms).Perm ms)
+    (hattrs : ∀ s ms, resolve s = .module ms → AttrsDistinct ms)
+    (processSchema : Cls → S → S) (pluginsStrs : List String) (valid : S → Bool) (render : Bool → S → String)
+    (insens : ∀ s, render true s = render false s) (target : Name) (flag₁ flag₂ : Bool) (dir₁ dir₂ : Dir) :
+    graphqlSchemaRun dirList₁ entries build ns₁ resolve processSchema pluginsStrs valid render target flag₁ dir₁
+      = graphqlSchemaRun dirList₂ entries build ns₂ resolve processSchema pluginsStrs valid render target flag₂ dir₂ := by
+  unfold graphqlSchemaRun runHook
+  rw [files_order_independent dirList₁ dirList₂ entries h₁ h₂ hd,
+    plugins_listing_independent resolve hn₁ hn₂ hattrs pluginsStrs]
+  cases loadGraphqlFiles dirList₂ entries with
+  | error e => rfl
+  | ok text =>
+    cases getPluginsTypes ns₂ resolve pluginsStrs with
+    | error m => rfl
+    | ok ps =>
+      simp only [Except.map]
+      split
+      · rw [regenerate_idempotent render _ (fun _ => flag₁) (fun _ => flag₂) dir₁ dir₂ (fun p _ => insens p.2)]
+      · rfl
+
+/-- (should) and a second run over the first leaves the target exactly as the first run did -/
+theorem graphqlschema_regenerate_same {S : Type} (dirList : List Entry → List Entry) (entries : List Entry) (build : String → S)
+    (ns : List (Name × Cls) → List (Name × Cls)) (resolve : String → PluginTarget) (processSchema : Cls → S → S)
+    (pluginsStrs : List String) (valid : S → Bool) (render : Bool → S → String) (target : Name) (flag : Bool) (dir : Dir) (log : WriteLog)
+    (h : graphqlSchemaRun dirList entries build ns resolve processSchema pluginsStrs valid render target flag dir = .ok log) :
+    applyLog (applyLog dir log) log = applyLog dir log :=
+  regenerate_same_directory log dir
+
+example : graphqlSchemaRun List.reverse [⟨["b.graphql"], false, "type B"⟩, ⟨["a.gql"], false, "type A"⟩] (fun t => [t])
+    List.reverse demoResolve (fun c s => s ++ [c]) ["b.P", "a.Q"] (fun _ => true) (fun _ s => ";".intercalate s) "schema_out.py" false (fun _ => none)
+    = .ok { written := [("schema_out.py", "type A\ntype B;b.P;a.Q")], printed := ["schema_out.py"] } := by decide
+
+/-! ## 11. the client strategy as a whole -/
+
+/-- (must) The property for the client strategy, in the model, all factors at once: a run of `main.client` —
+    load schema files, resolve plugins, load operation files, front end, every set-fed emission point of the
+    package and of every result module, assemble (hooks in plugin order), render, write — produces the same
+    write log (file names, bytes, printed list) whatever the set enumeration (hash seed), the listing order of
+    the schema and operations directories (creation order), the namespace listing of plugin modules, the
+    existing target directory and isort's view of it — outside the triggers of C10-F2 (`FrontSupported`, first
+    conjunct) and C10-F3 (`insens`). -/
+theorem client_deterministic {IR : Type} (e₁ e₂ : EnumOracle) (he₁ : EnumOK e₁) (he₂ : EnumOK e₂)
+    (dirS₁ dirS₂ dirQ₁ dirQ₂ : List Entry → List Entry) (schemaEntries queryEntries : List Entry)
+    (hs₁ : (dirS₁ schemaEntries).Perm schemaEntries) (hs₂ : (dirS₂ schemaEntries).Perm schemaEntries) (hsd : PathsDistinct schemaEntries)
+    (hq₁ : (dirQ₁ queryEntries).Perm queryEntries) (hq₂ : (dirQ₂ queryEntries).Perm queryEntries) (hqd : PathsDistinct queryEntries)
+    {ns₁ ns₂ : List (Name × Cls) → List (Name × Cls)} (resolve : String → PluginTarget)
+    (hn₁ : ∀ ms, (ns₁ ms).Perm ms) (hn₂ : ∀ ms, (ns₂ ms).Perm ms) (hattrs : ∀ s ms, resolve s = .module ms → AttrsDistinct ms)
+    (pluginsStrs : List String) (front : List Cls → String → String → Except String FrontOut)
+    (hfront : ∀ ps s q f, front ps s q = .ok f → FrontSupported f)
+    (keep : Name → Bool) (assemble : List Cls → PkgIR → List ResultIR → List (Name × IR))
+    (render : Bool → IR → String) (insens : ∀ ir, render true ir = render false ir)
+    (flag₁ flag₂ : Nat → Bool) (dir₁ dir₂ : Dir) :
+    clientRun e₁ dirS₁ dirQ₁ schemaEntries queryEntries ns₁ resolve pluginsStrs front keep assemble render flag₁ dir₁
+      = clientRun e₂ dirS₂ dirQ₂ schemaEntries queryEntries ns₂ resolve pluginsStrs front keep assemble render flag₂ dir₂ :=
+  clientRun_eq e₁ e₂ he₁ he₂ dirS₁ dirS₂ dirQ₁ dirQ₂ schemaEntries queryEntries hs₁ hs₂ hsd hq₁ hq₂ hqd resolve hn₁ hn₂ hattrs
+    pluginsStrs front hfront keep assemble render insens flag₁ flag₂ dir₁ dir₂
+
+/-- `FrontSupported` is `Supported_10` of the package input plus `MixinsDefined` of every result module -/
+theorem frontSupported_iff (f : FrontOut) :
+    FrontSupported f ↔ Supported_10 f.pkg ∧ ∀ r, r ∈ f.results → MixinsDefined r.mixins f.closure := by
+  unfold FrontSupported Supported_10 MixinsDefined MixinsDefinedIn
+  simp
+
+def demoFront : List Cls → String → String → Except String FrontOut := fun _ _ _ =>
+  .ok { pkg := okInput, results := [demoResult], closure := demoClosure, baseModel := "BaseModel" }
+
+example : ∀ ps s q f, demoFront ps s q = .ok f → FrontSupported f := by
+  intro ps s q f h
+  cases h
+  refine ⟨by decide, ?_⟩
+  intro r hr
+  simp at hr
+  subst hr
+  intro g _
+  show (demoClosure g).isSome = true
+  unfold demoClosure
+  split <;> rfl
+
+example : (clientRun List.reverse List.reverse id [⟨["b.graphql"], false, "type B"⟩, ⟨["a.gql"], false, "type A"⟩] [⟨["q.graphql"], false, "query Q"⟩]
+    id demoResolve ["b.P", "a.Q"] demoFront (fun _ => true)
+    (fun ps pk rs => [("client.py", ps ++ rs.flatMap (·.operationFragments)), ("fragments.py", (pk.fragments.map (·.2.1)).getD [])])
+    (fun _ ir => ",".intercalate ir) (fun _ => false) (fun _ => none)).toOption.map (·.written)
+    = some [("client.py", "b.P,a.Q,AuditView,ContactView,FullView,UserCore"), ("fragments.py", "Af,Gq")] := by decide
 
 end Ariadne.C10
